@@ -1654,7 +1654,7 @@ JUDGES = {
     'C07': [judge_c07, judge_c07_decoys],
     'C08': [judge_c08],
     'C09': [judge_c09, judge_c09_factories],
-    'C10': [judge_c10],
+    'C10': [judge_c10, judge_c01],      # C01's alignment check = "URL from the captured parameters reproduces the path"
     'C11': [lambda o, i: judge_cors(o, i, 'C11')],
     'C12': [lambda o, i: judge_cors(o, i, 'C12')],
     'C13': [judge_c13, judge_c09],
